@@ -21,6 +21,25 @@
  *     I <timeout_ms>                      coap_io_process(ctx, timeout_ms) (0 = COAP_IO_WAIT, 4294967295 =
  *                                         COAP_IO_NO_WAIT); epoll_wait is interposed: it moves the clock by
  *                                         the timeout it is given and reports no event
+ *     G <sess> <tok>                      (only at the start of the event list) session <sess> becomes a SERVER session:
+ *                                         the context gets an endpoint and an observable resource whose notifications
+ *                                         are Confirmable; a scripted peer registers as observer (NON GET, Observe 0,
+ *                                         token <tok>); the session's settings are applied to the new session
+ *     O <sess> <r>                        coap_resource_notify_observers(), then coap_io_prepare_epoll(): the
+ *                                         notification is generated and sent INSIDE the prepare call (r = its jitter
+ *                                         byte); prints its transmission and the reported wait.  In K/P/R events the
+ *                                         mid "L" stands for the mid of the session's last notification.
+ *     B <mode> | E <secs> | M <secs>      (only at the start of the event list) context options that bring OTHER timers
+ *                                         into the wait coap_io_prepare reports: B = coap_context_set_block_mode (1 =
+ *                                         COAP_BLOCK_USE_LIBCOAP: state of large transmits / receives expires), E =
+ *                                         coap_context_set_keepalive (the library sends Confirmable pings from inside the
+ *                                         prepare call), M = coap_context_set_session_timeout + an endpoint + a
+ *                                         stranger's request that leaves an idle server session behind
+ *     U <sess> <mid> <tok> <size> <r>     a Block1 upload in 16-byte blocks (coap_add_data_large_request + coap_send of a
+ *                                         CON PUT); the peer never sends the 2.31 that would continue it: the large
+ *                                         transmit stalls and its state lingers until it expires
+ *     Z <r>                               like T, with r the jitter byte of whatever the library sends from inside the call
+ *                                         (keep-alive pings); a new ping is reported as pg:<sess>:<mid>
  *     Q                                   dump the send queue (absolute deadlines)
  *   first, per session, what the getters report after the setters ran: 0.cfg:<k>:<at_ip>:<at_fp>:<arf_ip>:<arf_fp>:<max>
  *   output items, each prefixed with "<index of the event>." (times relative to the start of the case):
@@ -44,6 +63,37 @@ static coap_context_t *g_ctx;
 static coap_session_t *g_sess[MAXSESS];
 static int g_nsess;
 static int g_dead[MAXSESS];
+static coap_endpoint_t *g_ep;
+static coap_resource_t *g_res;
+static coap_session_t *g_obs_new;      /* session seen by the GET handler during a registration */
+static int g_is_server[MAXSESS];
+static int g_last_nmid[MAXSESS];
+static int g_opts;                     /* context options B/E/M present: other timers enter the wait */
+static int g_notify_sess = -1;         /* >= 0 while an O event runs: remember the first mid sent on it */
+
+static void on_obs_get(coap_resource_t *r, coap_session_t *s, const coap_pdu_t *req,
+                       const coap_string_t *q, coap_pdu_t *resp) {
+  (void)r; (void)req; (void)q;
+  g_obs_new = s;
+  coap_pdu_set_code(resp, COAP_RESPONSE_CODE_CONTENT);
+  coap_add_data(resp, 2, (const uint8_t *)"ob");
+}
+
+/* a datagram from the peer of session s: through the session's own socket (client session) or
+ * through the endpoint from the peer's address (server session) */
+static void inject_to(int s, const uint8_t *b, size_t n) {
+  if (g_is_server[s]) {
+    coap_address_t peer;
+    vn_addr4(&peer, 0x0a000001u + (uint32_t)s, (uint16_t)(40000 + s));
+    vn_inject_ep(g_ctx, g_ep, &peer, NULL, b, n);
+  } else {
+    vn_inject_session(g_ctx, g_sess[s], b, n);
+  }
+}
+
+static int mid_tok(const char *t, int s) {
+  return t[0] == 'L' ? g_last_nmid[s] : atoi(t);
+}
 static coap_tick_t g_t0;
 static int g_logging;
 static int g_first;
@@ -71,6 +121,10 @@ static void show_dgram_bytes(const uint8_t *b, size_t n) {
 
 static void on_send_hook(size_t idx) {
   if (!g_logging) return;
+  if (g_notify_sess >= 0 && vn_out[idx].session == g_sess[g_notify_sess] && vn_out[idx].len >= 4) {
+    g_last_nmid[g_notify_sess] = (vn_out[idx].data[2] << 8) | vn_out[idx].data[3];
+    g_notify_sess = -1;
+  }
   item_sep();
   printf("tx:%llu:%d:", (unsigned long long)(vn_out[idx].t - g_t0), sess_index(vn_out[idx].session));
   show_dgram_bytes(vn_out[idx].data, vn_out[idx].len);
@@ -126,6 +180,19 @@ static void c06(void) {
   if (!g_ctx) { puts("ERROR ctx"); return; }
   coap_register_nack_handler(g_ctx, on_nack);
   coap_register_response_handler(g_ctx, on_resp);
+  g_opts = 0;
+  int stranger_timeout = 0;
+  for (int j = 2 + 6 * g_nsess; j < vntok && strchr("GBEM", vtok[j][0]) && vtok[j][1] == 0;) {
+    char o = vtok[j][0];
+    if (o == 'G') { j += 3; continue; }
+    if (j + 1 >= vntok) break;
+    unsigned v = (unsigned)strtoul(vtok[j + 1], NULL, 10);
+    g_opts = 1;
+    if (o == 'B') coap_context_set_block_mode(g_ctx, v);
+    else if (o == 'E') coap_context_set_keepalive(g_ctx, v);
+    else if (o == 'M') { coap_context_set_session_timeout(g_ctx, v); stranger_timeout = 1; }
+    j += 2;
+  }
   vn_now = 1000;
   g_t0 = vn_now;
   vn_log_reset();
@@ -144,7 +211,59 @@ static void c06(void) {
     coap_session_set_max_retransmit(g_sess[k], (uint16_t)atoi(vtok[i + 4]));
     coap_session_set_nstart(g_sess[k], (uint16_t)atoi(vtok[i + 5]));
     g_dead[k] = 0;
+    g_is_server[k] = 0;
+    g_last_nmid[k] = -1;
     i += 6;
+  }
+  g_ep = NULL;
+  g_res = NULL;
+  g_logging = 0;
+  if (stranger_timeout) {
+    /* a request from a peer nobody holds a reference for: an idle server session whose expiry enters the wait */
+    coap_address_t peer;
+    uint8_t b[8] = {0x51, 0x01, 0x7d, 0x01, 0x99, 0xb1, 'x'};
+    g_ep = vn_new_server_ep(g_ctx);
+    vn_addr4(&peer, 0x0a000101u, 50000);
+    vn_inject_ep(g_ctx, g_ep, &peer, NULL, b, 7);
+  }
+  for (int j = i; j + 1 < vntok && strchr("GBEM", vtok[j][0]) && vtok[j][1] == 0; j += (vtok[j][0] == 'G' ? 3 : 2)) {
+    /* observer registration: session s is replaced by the server session the peer's GET creates */
+    if (vtok[j][0] != 'G' || j + 2 >= vntok) continue;
+    int s = atoi(vtok[j + 1]) % g_nsess;
+    if (g_is_server[s]) continue;
+    if (!g_ep) g_ep = vn_new_server_ep(g_ctx);
+    if (!g_res) {
+      g_res = coap_resource_init(coap_make_str_const("o"), COAP_RESOURCE_FLAGS_NOTIFY_CON);
+      coap_register_request_handler(g_res, COAP_REQUEST_GET, on_obs_get);
+      coap_resource_set_get_observable(g_res, 1);
+      coap_add_resource(g_ctx, g_res);
+    }
+    size_t tl;
+    uint8_t *tok = bytes_of_tok(vtok[j + 2], &tl);
+    if (tl > 8) tl = 8;
+    uint8_t b[32] = {(uint8_t)(0x50 | tl), 0x01, 0x7e, (uint8_t)s};
+    memcpy(b + 4, tok, tl);
+    b[4 + tl] = 0x60;            /* Observe (6), empty value = register */
+    b[5 + tl] = 0x51;            /* Uri-Path (11), "o" */
+    b[6 + tl] = 'o';
+    free(tok);
+    coap_address_t peer;
+    vn_addr4(&peer, 0x0a000001u + (uint32_t)s, (uint16_t)(40000 + s));
+    g_obs_new = NULL;
+    vn_inject_ep(g_ctx, g_ep, &peer, NULL, b, 7 + tl);
+    if (!g_obs_new) continue;
+    coap_session_reference(g_obs_new);
+    vn_unregister_client(g_sess[s]);
+    coap_session_release(g_sess[s]);
+    g_sess[s] = g_obs_new;
+    g_is_server[s] = 1;
+    int c = 2 + 6 * s;
+    coap_fixed_point_t at = {(uint16_t)atoi(vtok[c]), (uint16_t)atoi(vtok[c + 1])};
+    coap_fixed_point_t arf = {(uint16_t)atoi(vtok[c + 2]), (uint16_t)atoi(vtok[c + 3])};
+    coap_session_set_ack_timeout(g_sess[s], at);
+    coap_session_set_ack_random_factor(g_sess[s], arf);
+    coap_session_set_max_retransmit(g_sess[s], (uint16_t)atoi(vtok[c + 4]));
+    coap_session_set_nstart(g_sess[s], (uint16_t)atoi(vtok[c + 5]));
   }
   g_logging = 1;
   g_first = 1;
@@ -174,9 +293,9 @@ static void c06(void) {
         g_dead[s] = 1;
       }
       i += 3;
-    } else if ((c == 'S' || c == 'K' || c == 'R' || c == 'P' || c == 'N' || c == 'X') && i + 1 < vntok &&
+    } else if ((c == 'S' || c == 'K' || c == 'R' || c == 'P' || c == 'N' || c == 'X' || c == 'U') && i + 1 < vntok &&
                g_dead[atoi(vtok[i + 1]) % g_nsess]) {
-      i += (c == 'S') ? 7 : (c == 'P') ? 4 : (c == 'N') ? 5 : 3;
+      i += (c == 'S') ? 7 : (c == 'U') ? 6 : (c == 'P') ? 4 : (c == 'N') ? 5 : 3;
     } else if (c == 'X' && i + 2 < vntok) {
       int s = atoi(vtok[i + 1]) % g_nsess;
       int mid = atoi(vtok[i + 2]);
@@ -186,6 +305,87 @@ static void c06(void) {
         if (q->session == g_sess[s] && q->id == mid) break;
       coap_lock_unlock(g_ctx);
       if (q) coap_delete_node(q);
+      i += 3;
+    } else if (c == 'G' && i + 2 < vntok) {
+      i += 3;                      /* done before the first event */
+    } else if ((c == 'B' || c == 'E' || c == 'M') && i + 1 < vntok) {
+      i += 2;                      /* done before the first event */
+    } else if (c == 'U' && i + 5 < vntok) {
+      int s = atoi(vtok[i + 1]) % g_nsess;
+      size_t tl, size = (size_t)atoi(vtok[i + 4]);
+      uint8_t *tok = bytes_of_tok(vtok[i + 3], &tl);
+      static uint8_t body[4096], rb3[16], blk[1] = {0x08};   /* Block1: num 0, more, szx 0 (16 bytes) */
+      if (size > sizeof(body)) size = sizeof(body);
+      memset(body, 'u', sizeof(body));
+      memset(rb3, atoi(vtok[i + 5]), sizeof(rb3));
+      coap_pdu_t *p = coap_pdu_init(COAP_MESSAGE_CON, COAP_REQUEST_CODE_PUT, (coap_mid_t)atoi(vtok[i + 2]), 1152);
+      if (tl > 4) tl = 4;
+      coap_add_token(p, tl, tok);
+      coap_add_option(p, COAP_OPTION_URI_PATH, 1, (const uint8_t *)"b");
+      coap_add_option(p, COAP_OPTION_BLOCK1, 1, blk);
+      coap_mid_t r = COAP_INVALID_MID;
+      if (coap_add_data_large_request(g_sess[s], p, size, body, NULL, NULL)) {
+        vn_prng_script = rb3;
+        vn_prng_script_len = sizeof(rb3);
+        vn_prng_script_pos = 0;
+        r = coap_send(g_sess[s], p);
+        vn_prng_script_len = 0;
+      } else {
+        coap_delete_pdu(p);
+      }
+      item_sep();
+      printf("s:%d", (int)r);
+      free(tok);
+      i += 6;
+    } else if (c == 'Z' && i + 1 < vntok) {
+      static uint8_t rb4[16];
+      coap_mid_t before[MAXSESS];
+      memset(rb4, atoi(vtok[i + 1]), sizeof(rb4));
+      for (int k = 0; k < g_nsess; k++) before[k] = g_dead[k] ? COAP_INVALID_MID : g_sess[k]->last_ping_mid;
+      vn_prng_script = rb4;
+      vn_prng_script_len = sizeof(rb4);
+      vn_prng_script_pos = 0;
+      unsigned w = vn_prepare(g_ctx);
+      vn_prng_script_len = 0;
+      for (int k = 0; k < g_nsess; k++)
+        if (!g_dead[k] && g_sess[k]->last_ping_mid != before[k] && g_sess[k]->last_ping_mid != COAP_INVALID_MID) {
+          g_last_nmid[k] = g_sess[k]->last_ping_mid;
+          item_sep();
+          printf("pg:%d:%d", k, g_last_nmid[k]);
+        }
+      long long hd = -1;
+      last_tick = (long long)vn_now;
+      last_wait = (long long)w;
+      coap_lock_lock(g_ctx, return);
+      if (g_ctx->sendqueue)
+        hd = (long long)(g_ctx->sendqueue_basetime + g_ctx->sendqueue->t - g_t0);
+      coap_lock_unlock(g_ctx);
+      item_sep();
+      printf("w:%llu:%u:%lld", (unsigned long long)(vn_now - g_t0), w, hd);
+      i += 2;
+    } else if (c == 'O' && i + 2 < vntok) {
+      int s = atoi(vtok[i + 1]) % g_nsess;
+      static uint8_t rb2[1];
+      if (g_res && g_is_server[s] && !g_dead[s]) {
+        coap_resource_notify_observers(g_res, NULL);
+        rb2[0] = (uint8_t)atoi(vtok[i + 2]);
+        vn_prng_script = rb2;
+        vn_prng_script_len = 1;
+        vn_prng_script_pos = 0;
+        g_notify_sess = s;
+      }
+      unsigned w = vn_prepare(g_ctx);
+      vn_prng_script_len = 0;
+      g_notify_sess = -1;
+      long long hd = -1;
+      last_tick = (long long)vn_now;
+      last_wait = (long long)w;
+      coap_lock_lock(g_ctx, return);
+      if (g_ctx->sendqueue)
+        hd = (long long)(g_ctx->sendqueue_basetime + g_ctx->sendqueue->t - g_t0);
+      coap_lock_unlock(g_ctx);
+      item_sep();
+      printf("w:%llu:%u:%lld", (unsigned long long)(vn_now - g_t0), w, hd);
       i += 3;
     } else if (c == 'A' && i + 1 < vntok) {
       vn_advance((coap_tick_t)strtoull(vtok[i + 1], NULL, 10));
@@ -225,9 +425,9 @@ static void c06(void) {
       i += 1;
     } else if ((c == 'K' || c == 'R') && i + 2 < vntok) {
       int s = atoi(vtok[i + 1]) % g_nsess;
-      unsigned mid = (unsigned)atoi(vtok[i + 2]);
+      unsigned mid = (unsigned)mid_tok(vtok[i + 2], s);
       uint8_t b[4] = {(uint8_t)(c == 'K' ? 0x60 : 0x70), 0, (uint8_t)(mid >> 8), (uint8_t)mid};
-      vn_inject_session(g_ctx, g_sess[s], b, 4);
+      inject_to(s, b, 4);
       i += 3;
     } else if (c == 'P' && i + 3 < vntok) {
       int s = atoi(vtok[i + 1]) % g_nsess;
@@ -237,7 +437,7 @@ static void c06(void) {
       uint8_t b[16] = {(uint8_t)(0x60 | (tl & 15)), 0x45, (uint8_t)(mid >> 8), (uint8_t)mid};
       if (tl > 8) tl = 8;
       memcpy(b + 4, tok, tl);
-      vn_inject_session(g_ctx, g_sess[s], b, 4 + tl);
+      inject_to(s, b, 4 + tl);
       free(tok);
       i += 4;
     } else if (c == 'N' && i + 4 < vntok) {
@@ -249,7 +449,7 @@ static void c06(void) {
       if (tl > 8) tl = 8;
       b[0] = (uint8_t)(0x50 | (tl & 15));
       memcpy(b + 4, tok, tl);
-      vn_inject_session(g_ctx, g_sess[s], b, 4 + tl);
+      inject_to(s, b, 4 + tl);
       free(tok);
       i += 5;
     } else if (c == 'I' && i + 1 < vntok) {
